@@ -10,13 +10,14 @@ import (
 	"verif/harness/kit"
 	"verif/harness/model"
 	"verif/harness/pop"
+	"verif/harness/zoo"
 )
 
 func TestMain(m *testing.M) { kit.Main(m) }
 
 const rule = "provider populations from the provider zoo (11 concrete types, 6 overlapping interfaces, named/unnamed, lazy/eager, Comp() results drawn) x 1-3 run-time built consumers with 1-4 unnamed points of kinds *T, I, []*T, []I, any, []any under wire:\"\" / func:\"Comp\" / func:\"Comp,returns=..\"; oracle = plain-reflect reference candidate set over the registered population; non-trivial = some point has >=2 admissible components and the population holds a same-shaped non-candidate; distinct by scenario shape"
 
-var kinds = []int{0, 1, 2, 3, 4, 5, 6, 7, 8}
+var kinds = []int{0, 1, 2, 3, 4, 5, 6, 7, 8, 13, 14, 15}
 var names = []string{"n1", "n2", "n3", "n4", "n5", "n6"}
 var compVals = []string{"a", "b", "c"}
 
@@ -133,4 +134,62 @@ func dedup(xs []string) []string {
 		}
 	}
 	return out
+}
+
+// TestLazyRetry: a lazy component whose first creation fails (Init fails once) is created again by a
+// later lookup; its slice points must then hold every admissible component exactly once (no leftovers
+// of the failed attempt).
+func TestLazyRetry(t *testing.T) {
+	kit.Rec.Rule(rule)
+	rapid.Check(t, func(t *rapid.T) {
+		s := graph.Gen(t, graph.GenOpts{MinNodes: 2, MaxNodes: 5, Variants: "NLL", Aliases: true})
+		lazy := -1
+		for i, n := range s.Nodes {
+			if n.Variant == 'L' {
+				lazy = i
+			}
+		}
+		if lazy < 0 {
+			t.Skip("no lazy node")
+		}
+		s.Nodes[lazy].FailInit = zoo.FailOnce
+		in := s.Instantiate()
+		in.Run()
+		desc := "lazy-retry " + s.Shape()
+		if in.Out.Panic != nil {
+			t.Fatalf("C06: panic %v\n%s", in.Out.Panic, desc)
+		}
+		if in.Out.Err != nil {
+			// the lazy node was needed by an eager one: start-up fails, nothing to retry
+			kit.Rec.Case(desc, false, "needed-at-startup")
+			return
+		}
+		name := in.Comp(lazy).Name
+		_, err1 := in.Out.App.GetComponentByName(name)
+		_, err2 := in.Out.App.GetComponentByName(name)
+		if err1 == nil || err2 != nil {
+			kit.Rec.Case(desc, false, "no-retry-shape")
+			return
+		}
+		c := in.Comp(lazy)
+		for _, p := range in.G.Points[c] {
+			if !p.Multi {
+				continue
+			}
+			seen := map[any]int{}
+			fv := p.FieldValue()
+			for i := 0; i < fv.Len(); i++ {
+				seen[fv.Index(i).Interface()]++
+			}
+			for o, n := range seen {
+				if n > 1 {
+					t.Fatalf("C06: after the retried creation %s holds %T %d times (every component exactly once expected)\n%s", p, o, n, desc)
+				}
+			}
+			if len(seen) != len(p.Cands) {
+				t.Fatalf("C06: after the retried creation %s holds %d distinct components, %d are admissible\n%s", p, len(seen), len(p.Cands), desc)
+			}
+		}
+		kit.Rec.Case(desc, true, "retried-lazy-creation")
+	})
 }
